@@ -88,6 +88,7 @@ PIPE_RULE = (
     "non-trivial = set at some index by a function, program, aggregation or skip window, calibration factor != 1, or clipped at a limit"
 )
 RULE = RULE + PIPE_RULE
+EXPECTED_BRANCHES += ["ratio.dynamic+output", "ratio.output-only", "ratio.dynamic-only", "ratio.numerator_near_tolerance", "ratio.numerator_ordinary"]
 EXPECTED_BRANCHES += [
     "stage.data", "stage.data.transfer", "stage.function.dynamic", "stage.function.precompute", "stage.function.postcompute", "stage.aggregation",
     "stage.skip.dynamic", "stage.skip.precompute", "stage.skip.postcompute", "stage.program.number", "stage.program.pertime", "stage.program.other",
@@ -601,9 +602,65 @@ def run_init_scaled(ctx):
                 break
 
 
+def run_ratio_function(ctx):
+    """'Function parameters are the function of the same-step values of their dependencies': a function of a ratio characteristic
+    frac0 = c0 / (c0 + c1) must have the value f(c0[t] / (c0[t] + c1[t])) at every step whenever the denominator is positive, whether the
+    parameter drives a transition (evaluated during the run, Characteristic.update), is a pure output (evaluated after the run from
+    Characteristic.vals), or both; and the characteristic the Result reports must be that same quotient. Numerators around the library's
+    1e-6 tolerance are where the per-step and the vectorised rule could part."""
+    from vlib import genfw
+
+    r = ctx.rng
+    P = dict(timescale=None, min=None, max=None, timed=False, targetable=False, databook=False, value={})
+    for i in range(ctx.n(24, 300)):
+        c0 = r.choice([5e-7, 1e-7, 9.9e-7, 1e-6, 2e-6, 1e-3, 0.0, 10.0, 250.0]) if i >= 4 else [5e-7, 0.0, 10.0, 1e-6][i]
+        c1 = r.choice([0.0, 0.0, 1e-7, 5.0, 100.0])
+        k = r.choice([0.1, 0.25, 0.5])
+        variant = r.choice(["dynamic+output", "output-only", "dynamic-only"]) if i >= 4 else ["dynamic+output", "output-only", "output-only", "dynamic+output"][i]
+        pars = []
+        if variant != "output-only":
+            pars.append(dict(P, name="ra0", format="rate", function=f"{k}*frac0"))
+        else:
+            pars.append(dict(P, name="ra0", format="rate", databook=True, value={"pa": 0.2}))
+        if variant != "dynamic-only":
+            pars.append(dict(P, name="out0", format="number", function=f"{k}*frac0"))
+        spec = {"comps": [{"name": "c0", "kind": "normal", "databook": True, "init": {"pa": c0}}, {"name": "c1", "kind": "normal", "databook": True, "init": {"pa": c1}}],
+                "characs": [{"name": "alive", "components": ["c0", "c1"], "denominator": None, "databook": False}, {"name": "frac0", "components": ["c0"], "denominator": "alive", "databook": False}],
+                "pars": pars, "transitions": [["c0", "c1", "ra0"]], "pops": ["pa"], "transfers": [], "interactions": [], "settings": [2000, 2003, 1.0]}
+        key = {"api": "Parameter.update", "oracle": "ratio-function", "variant": variant}
+        try:
+            pop = genfw.run(spec).pops[0]
+        except Exception as ex:
+            ctx.brk("correspondence", f"ratio-function model could not be run: {type(ex).__name__}: {str(ex)[:200]}", case=key, spec=spec)
+            continue
+        a = [float(x) for x in pop.get_comp("c0").vals]; b = [float(x) for x in pop.get_comp("c1").vals]
+        small = 0 < c0 <= 2e-6
+        ctx.count("ratio." + variant); ctx.count("ratio.numerator_near_tolerance" if small else "ratio.numerator_ordinary" if c0 > 0 else "ratio.numerator_zero")
+        ctx.case({**key, "c0": c0, "c1": c1, "k": k}, nontrivial=c0 > 0, sample={"c0": c0, "c1": c1, "variant": variant})
+        bad = None
+        for ti in range(len(a)):
+            den = a[ti] + b[ti]
+            if not den > 0:
+                continue   # 0/0 is defined as 0 by the library; not the subject here
+            want = a[ti] / den
+            seen = {"reported characteristic frac0": float(pop.get_charac("frac0").vals[ti]) }
+            for nm in ("ra0", "out0"):
+                if any(p_["name"] == nm and p_.get("function") for p_ in pars):
+                    seen[f"parameter {nm} / {k}"] = float(pop.get_par(nm).vals[ti]) / k
+            for what, got in seen.items():
+                if abs(got - want) > 1e-9 * max(1.0, abs(want)):
+                    bad = f"index {ti}: c0={a[ti]!r}, c0+c1={den!r}, quotient {want!r}, but {what} = {got!r}"
+                    break
+            if bad:
+                break
+        if bad:
+            ctx.violation(key, f"{variant}, initial c0={c0!r} c1={c1!r}: {bad}", {"kind": "ratio_function", "spec": spec, "k": k})
+
+
 def run(ctx):
     run_series(ctx)
     run_init_scaled(ctx)
+    run_ratio_function(ctx)
     params_corr.run_params(ctx, PROPERTY)
 
 
@@ -612,6 +669,19 @@ def replay(ctx, data):
     if rp.get("kind") == "init_scaled":
         print("spec:", rp["spec"]); print("re-run: vlib.genfw.build(spec) with numpy.linalg.lstsq wrapped; compare b with databook x y_factor x meta_y_factor (x denominator)")
         return 0
+    if rp.get("kind") == "ratio_function":
+        from vlib import genfw
+        pop = genfw.run(rp["spec"]).pops[0]; k = rp["k"]; bad = False
+        a = pop.get_comp("c0").vals; b = pop.get_comp("c1").vals
+        for ti in range(len(a)):
+            den = float(a[ti] + b[ti])
+            if den > 0:
+                want = float(a[ti]) / den; got = float(pop.get_charac("frac0").vals[ti])
+                vals = {"frac0": got, **{nm: float(pop.get_par(nm).vals[ti]) / k for nm in ("ra0", "out0") if any(p_["name"] == nm and p_.get("function") for p_ in rp["spec"]["pars"])}}
+                print(f"index {ti}: quotient {want!r}  seen {vals}")
+                bad = bad or any(abs(v - want) > 1e-9 * max(1.0, abs(want)) for v in vals.values())
+        print("FAILS" if bad else "passes")
+        return 1 if bad else 0
     if rp.get("kind") in ("generated", "demo", "spec"):
         return params_corr.replay_params(ctx, PROPERTY, data)
     spec = rp["spec"]
